@@ -14,7 +14,11 @@ from typing import Any
 from hypothesis import strategies as st
 
 from frequenz.channels import Broadcast
+from frequenz.client.microgrid import ComponentMetricId
 from frequenz.quantities import Quantity
+from frequenz.sdk._internal._channels import ChannelRegistry
+from frequenz.sdk.microgrid._data_sourcing import ComponentMetricRequest
+from frequenz.sdk.microgrid._resampling import ComponentMetricsResamplingActor
 from frequenz.sdk.timeseries import Sample
 from frequenz.sdk.timeseries._resampling import Resampler, ResamplerConfig
 
@@ -33,7 +37,8 @@ RULE = {
         "period grid / future instant / epoch; creation instant = grid point + {0, 1 us, period/2, period - 1 us} + whole "
         "periods; 1-4 series, each added before the start or at a generated virtual time while running; per-tick sink latency "
         "from {0, 0.3, 1, 2.5 periods} on the slow sinks; the first resample() awaited {0, 0.5, 3.7} periods late; the driver "
-        "restarts resample() on any exception, as the resampling actor does. Oracle on the samples handed to every sink: "
+        "restarts resample() on any exception, as the resampling actor does; a quarter of the cases run the same script "
+        "through a real ComponentMetricsResamplingActor (series = subscription requests, sinks = registry channels). Oracle on the samples handed to every sink: "
         "timestamps are t1 + k*period for consecutive k (exact datetimes), aligned to align_to, creation < t1 <= creation + 2 "
         "periods, series resampled together get identical timestamps, a series added at time a joins from the first tick "
         "whose resampling began after a and is gap-free from there. Non-trivial = creation off the grid, or a latency >= 1 "
@@ -44,7 +49,7 @@ ASSUMPTIONS = [
     "virtual time: asyncio timers, the frequenz-channels Timer and datetime.now() share one clock owned by the harness",
     "resample() raising while a series is added during a slow gather is tolerated; the driver restarts it (actor behaviour)",
 ]
-MIN_LABELS = {"C07": {"creation_off_grid": 0.4, "latency_ge_period": 0.3, "series_added_while_running": 0.3, "late_first_call": 0.3}}
+MIN_LABELS = {"C07": {"creation_off_grid": 0.4, "latency_ge_period": 0.3, "series_added_while_running": 0.3, "late_first_call": 0.25, "through_resampling_actor": 0.1}}
 
 US = timedelta(microseconds=1)
 EPOCH = datetime(1970, 1, 1, tzinfo=timezone.utc)
@@ -68,6 +73,7 @@ def strategy(tier: str, pid: str = "C07") -> st.SearchStrategy[Any]:
         "latency": st.lists(st.sampled_from([0.0, 0.0, 0.0, 0.3, 1.0, 2.5]), min_size=8, max_size=8),
         "init_delay": st.sampled_from([0.0, 0.0, 0.5, 3.7]),
         "horizon": horizon,
+        "driver": st.sampled_from(["direct", "direct", "direct", "actor"]),
     })
 
 
@@ -142,7 +148,9 @@ def run_case(case: Any, pid: str) -> Verdict:
             if target > loop.time():
                 await asyncio.sleep(target - loop.time())
             add(i)
-        end = t_create + case["horizon"] * psec
+        # stop off the tick grid: the frequenz-channels Timer (a dependency, taken as given) swallows a
+        # cancellation that arrives at the very instant its internal sleep completes
+        end = t_create + (case["horizon"] + 0.37) * psec
         if end > loop.time():
             await asyncio.sleep(end - loop.time())
         task.cancel()
@@ -152,7 +160,57 @@ def run_case(case: Any, pid: str) -> Verdict:
             pass
         await resampler.stop()
 
-    world.run(scenario)
+    async def actor_scenario() -> None:
+        """Same script through the ComponentMetricsResamplingActor: series are subscription requests."""
+        loop = asyncio.get_running_loop()
+        await asyncio.sleep((creation - world.T0).total_seconds())
+        t_create = loop.time()
+        registry = ChannelRegistry(name="c07")
+        ds_requests: Any = Broadcast(name="ds-requests")
+        keep = ds_requests.new_receiver(limit=10000)
+        rs_requests: Any = Broadcast(name="rs-requests")
+        actor = ComponentMetricsResamplingActor(
+            channel_registry=registry, data_sourcing_request_sender=ds_requests.new_sender(),
+            resampling_request_receiver=rs_requests.new_receiver(limit=10000),
+            config=ResamplerConfig(resampling_period=period, align_to=align))
+        actor.start()
+        req_tx = rs_requests.new_sender()
+        collectors = []
+
+        async def add(i: int) -> None:
+            req = ComponentMetricRequest("ns", 100 + i, ComponentMetricId.ACTIVE_POWER, None)
+            rx = registry.get_or_create(Sample[Quantity], req.get_channel_name()).new_receiver(limit=100000)
+
+            async def collect() -> None:
+                async for sample in rx:
+                    outs[i].append((sample.timestamp, loop.time()))
+
+            collectors.append(asyncio.create_task(collect()))
+            added_at[i] = loop.time()
+            await req_tx.send(req)
+
+        for i, spec in enumerate(series):
+            if spec["add_at"] is None:
+                await add(i)
+        for at, i in sorted((spec["add_at"], i) for i, spec in enumerate(series) if spec["add_at"] is not None):
+            target = t_create + at * psec
+            if target > loop.time():
+                await asyncio.sleep(target - loop.time())
+            await add(i)
+        end = t_create + (case["horizon"] + 0.37) * psec
+        if end > loop.time():
+            await asyncio.sleep(end - loop.time())
+        await world.settle()
+        for task in collectors:
+            task.cancel()
+        await actor.stop()
+        del keep
+
+    if case.get("driver") == "actor":
+        v.labels.add("through_resampling_actor")
+        world.run(actor_scenario)
+    else:
+        world.run(scenario)
 
     # reference timeline: the union of everything any sink saw, keyed by emission time
     ref = next(i for i, s in enumerate(series) if s["add_at"] is None)
@@ -199,12 +257,13 @@ def run_case(case: Any, pid: str) -> Verdict:
     del ref
     if case["phase"] != "zero" and align is not None:
         v.labels.add("creation_off_grid")
-    slow_used = any(s["slow"] for s in series) and any(x >= 1.0 for x in case["latency"])
+    direct = case.get("driver") != "actor"
+    slow_used = direct and any(s["slow"] for s in series) and any(x >= 1.0 for x in case["latency"])
     if slow_used:
         v.labels.add("latency_ge_period")
     if any(s["add_at"] is not None for s in series):
         v.labels.add("series_added_while_running")
-    if case["init_delay"]:
+    if case["init_delay"] and direct:
         v.labels.add("late_first_call")
     if excs:
         v.labels.add("resample_raised_and_was_restarted")
